@@ -309,7 +309,8 @@ func degenerate(s Shape) string {
 func key(v interface{}) string { b, _ := json.Marshal(v); return string(b) }
 
 type H struct {
-	run *hx.Run
+	run          *hx.Run
+	maxEnclosure float64 // widest exactness enclosure of the run (reported in meta.extra)
 }
 
 // call the field under recover
@@ -425,7 +426,7 @@ func (h *H) lipBatch(r *hx.Rng, s Shape, n int) {
 
 func main() {
 	run := hx.ParseFlags("C19", "Check.C19")
-	h := &H{run}
+	h := &H{run: run}
 	for _, in := range run.Inputs() {
 		switch in.Kind {
 		case "eval", "eval-exact", "degenerate-eval":
